@@ -27,7 +27,7 @@ from checks.pcommon import prog, account, finish_case
 
 LANGS = ["swift", "scala", "python", "go", "typescript", "kotlin"]
 TRIGGERS = ["unit", "u8", "u16", "u32", "U53", "i32", "option", "vec", "map", "datetime", "generic", "bytes", "string"]
-POSITIONS = ["field", "field_default", "field_foreign_override", "newtype", "alias", "generic_arg", "struct_variant_field", "generic_alias"]
+POSITIONS = ["field", "field_default", "field_keyword", "field_foreign_override", "newtype", "alias", "generic_arg", "struct_variant_field", "generic_alias"]
 WRAPS = [(), ("vec",), ("option",), ("map",), ("vec", "vec"), ("option", "vec"), ("vec", "option"), ("map", "vec"), ("array",), ("slice",), ("array", "vec"), ("mapkey",), ("vec", "mapkey"), ("map", "mapkey")]
 
 
@@ -72,6 +72,9 @@ def _build_pd(ir, trig, pos, ws, name_chars, crate="", file_name=""):
         return ir.parsed_data(structs=[ir.struct(nm, [ir.field("f", ty)], generics=gens)], crate=crate, file_name=file_name)
     if pos == "field_default":
         return ir.parsed_data(structs=[ir.struct(nm, [ir.field("f", ty, has_default=True)], generics=gens)], crate=crate, file_name=file_name)
+    if pos == "field_keyword":
+        # a field whose Rust name is a keyword of a target language (Python: `from` is written `from_` with an alias)
+        return ir.parsed_data(structs=[ir.struct(nm, [ir.field("from", ty)], generics=gens)], crate=crate, file_name=file_name)
     if pos == "field_foreign_override":
         # a type override for ANOTHER language (Kotlin) leaves this language's field as it is
         L = ir.L
@@ -328,6 +331,8 @@ def render(trig, pos, ws, name="Abc"):
         return "#[typeshare]\npub struct %s%s { pub f: %s }\n" % (name, g, t)
     if pos == "field_default":
         return "#[typeshare]\npub struct %s%s { #[serde(default)] pub f: %s }\n" % (name, g, t)
+    if pos == "field_keyword":
+        return "#[typeshare]\npub struct %s%s { pub from: %s }\n" % (name, g, t)
     if pos == "field_foreign_override":
         return '#[typeshare]\npub struct %s%s { #[typeshare(kotlin(type = "Ovr"))] pub f: %s }\n' % (name, g, t)
     if pos == "newtype":
